@@ -1,9 +1,29 @@
 use proto_vulcan::prelude::*;
+use proto_vulcan::relation::always::always;
+macro_rules! go {
+    ($name:expr, |$q:ident| { $($body:tt)* }) => {{
+        let q = proto_vulcan_query!(|$q| { $($body)* });
+        proto_vulcan::verif::reset_steps();
+        let mut last = 0;
+        print!("{}: ", $name);
+        for (i, _r) in q.run().enumerate() {
+            if (i + 1) % 100 == 0 { use std::io::Write; std::io::stdout().flush().unwrap();
+                let s = proto_vulcan::verif::steps();
+                print!("{} ", s - last);
+                last = s;
+            }
+            if i >= 20000 { break; }
+        }
+        println!();
+    }};
+}
 fn main() {
-    let q1 = proto_vulcan_query!(|x| { conde { |z| { |w| { w == z, z == 1, x == w } }, [|u| { |v| { v == u, u == 2, x == v } }] } });
-    let q2 = proto_vulcan_query!(|x| { conde { [|_a| { |_b| { _b == _a, _a == 1, x == _b } }], |c| { |d| { d == c, c == 2, x == d } } } });
-    let q3 = proto_vulcan_query!(|x| { conde { |a| { |b| { b == a, a == 1, x == b } }, |_c| { |_d| { _d == _c, _c == 2, x == _d } } } });
-    println!("{:?}", q1.run().map(|r| format!("{}", r.x)).collect::<Vec<_>>());
-    println!("{:?}", q2.run().map(|r| format!("{}", r.x)).collect::<Vec<_>>());
-    println!("{:?}", q3.run().map(|r| format!("{}", r.x)).collect::<Vec<_>>());
+    let h = std::thread::Builder::new().stack_size(std::env::var("STK").unwrap().parse::<usize>().unwrap()).spawn(|| {
+        go!("loop q==1", |q| { loop { q == 1 } });
+        go!("loop conde1", |q| { loop { conde { q == 1 } } });
+        go!("loop conde2", |q| { loop { conde { q == 1, q == 2 } } });
+        go!("conde always", |q| { conde { [always(), q == 1], [always(), q == 2] } });
+        go!("always conde", |q| { always(), conde { q == 1, q == 2 } });
+    }).unwrap();
+    h.join().unwrap();
 }
